@@ -100,9 +100,15 @@ fn oracle(req: &str, resp: &str) -> Verdict {
     }
     if resp == "bad-op" { return Verdict::NoOracle; }
     let big = |s: &str| s.parse::<BigInt>().unwrap();
+    // F-C43, per function family (the narrow predicate of the known finding):
+    //  * the FIXED conversions (unsigned/signed_fixed_to_decimal, *_value_to_decimal) drop digits only
+    //    for |n| > 2^96-1; with |n| <= 2^96-1 and more than 28 decimals they must answer `None`;
+    //  * the AMOUNT conversions (unsigned/signed_amount_to_decimal) divide only for decimals > 28.
+    let is_amount = matches!(t[1], "ua2d" | "sa2d" | "rta" | "rtsa");
+    let truncating = |n: &BigInt, dec: u32| if is_amount { dec > 28 } else { n.magnitude() > &num_bigint::BigUint::from(MAX_REPR) };
     let unsupported = |n: &BigInt, dec: u32| n.magnitude() > &num_bigint::BigUint::from(MAX_REPR) || dec > 28;
     let classify = |n: &BigInt, dec: u32, what: String| {
-        if unsupported(n, dec) { Verdict::Known(what) } else { Verdict::Fail(what) }
+        if truncating(n, dec) { Verdict::Known(what) } else { Verdict::Fail(what) }
     };
     match t[1] {
         "u2d" | "s2d" | "uv2d" | "sv2d" | "ua2d" | "sa2d" => {
@@ -115,8 +121,9 @@ fn oracle(req: &str, resp: &str) -> Verdict {
                 if m.magnitude() > &num_bigint::BigUint::from(MAX_REPR) || s > 28 {
                     return Verdict::Fail(format!("malformed Decimal returned ({resp})"));
                 }
+                // EXACTNESS: a returned Decimal must denote n * 10^-decimals exactly, for every `decimals`
                 if &m * pow10(dec) == &n * pow10(s) { Verdict::Ok }
-                else { classify(&n, dec, format!("silently scaled/truncated: {n}e-{dec} became {m}e-{s}")) }
+                else { classify(&n, dec, format!("silently scaled/truncated: {n}e-{dec} became {m}e-{s} (must be an error)")) }
             } else if resp == "none" {
                 if unsupported(&n, dec) { Verdict::Ok } else { Verdict::Fail("supported operands rejected".into()) }
             } else { Verdict::Fail(format!("unexpected response {resp}")) }
@@ -333,6 +340,19 @@ fn main() {
         out.stat(if resp.starts_with("ok") { "resp.ok" } else if resp == "none" { "resp.none" }
                  else if resp == "panic" { "resp.panic" } else { "resp.err" });
         let nt = resp.starts_with("ok") && !resp.starts_with("ok 0");
+        // signed and unsigned conversions agree on non-negative inputs
+        {
+            let t: Vec<&str> = req.split(' ').collect();
+            let twin = match t[1] { "s2d" => Some("u2d"), "sv2d" => Some("uv2d"), "sa2d" => Some("ua2d"), "rts" => None, _ => None };
+            if let Some(tw) = twin {
+                if !t[2].starts_with('-') {
+                    let mut q: Vec<&str> = t.clone(); q[1] = tw;
+                    let other = exec(&q.join(" "));
+                    out.stat("oracle.signed_unsigned_compared");
+                    if other != resp { out.oracle_fail(&format!("signed conversion gives `{resp}` but the unsigned one `{other}` on the same non-negative input"), &req); }
+                }
+            }
+        }
         match oracle(&req, &resp) {
             Verdict::Ok => out.stat("oracle.ok"),
             Verdict::NoOracle => out.stat("oracle.none"),
